@@ -159,6 +159,10 @@ def make_cases(run):
         steps = G.gen_steps(rng, list(range(npu)), list(range(nnuma)))
         cases.append(Case("synthetic:%s|%s|%s" % (desc, ";".join(cfg[:-1]), ";".join(s for _, s in steps)), "synthetic",
                           cfg, G.misc_annotations(rng), [s for _, s in steps]))
+    # application-inserted Groups with dont_merge on a subset, then restrictions that make the Group level redundant
+    for i in range(90 if quick else 2500):
+        cfg, ann, steps, d = G.gen_group_history(rng)
+        cases.append(Case("groups:%s|%s|%s" % (d, ";".join(ann), ";".join(steps)), "groups", cfg, ann, steps))
     # generated trees: asymmetric, CPU-less NUMA nodes, memory-side caches, I/O, Misc
     for i in range(260 if quick else 6000):
         root, pus, numas = G.gen_tree(rng)
